@@ -914,6 +914,55 @@ Fixpoint afrun (at_len : bool) (ops : list afop) (st : fstate) : list obs * fsta
                let '(os, st'') := afrun at_len r st' in (o :: os, st'')
   end.
 
+(* FuseDevWriter::write_all_from: check_available_space(count); loop { write_from(src, count) : Ok(0) => WriteZero,
+   Ok(n) => count -= n }.  On an unbuffered writer the first iteration already sends its packet, so a source that
+   ends early runs into the assert! of the second iteration (RPanic). *)
+Fixpoint fw_write_all_from_loop (fuel : nat) (count : N) (src : option (list N)) (m : mem) (w : fdw) (pk : list (list N))
+  : res * mem * fdw * list (list N) :=
+  match fuel with
+  | O => (RErr EBadIndex, m, w, pk)
+  | S f =>
+      if count =? 0 then (ROk 0 [], m, w, pk)
+      else match fw_write_from count src m w with
+           | (ROk 0 _, m', w', ps) => (RErr EEof, m', w', pk ++ ps)
+           | (ROk n _, m', w', ps) =>
+               fw_write_all_from_loop f (count - n) (option_map (skipn (N.to_nat n)) src) m' w' (pk ++ ps)
+           | (r, m', w', ps) => (r, m', w', pk ++ ps)
+           end
+  end.
+Definition fw_write_all_from (count : N) (src : option (list N)) (m : mem) (w : fdw) :=
+  match f_check w count with
+  | Some r => (r, m, w, [])
+  | None => fw_write_all_from_loop (S (N.to_nat count)) count src m w []
+  end.
+
+(* operations outside [afop]: write_all_from and flush (FuseDevWriter::flush always refuses, changes nothing) *)
+Inductive xfop :=
+| XA (a : afop)
+| XWriteAllFrom (i : nat) (count : N) (src : option (list N))
+| XFlush (i : nat).
+Definition xfstep (at_len : bool) (x : xfop) (st : fstate) : obs * fstate :=
+  match x with
+  | XA a => afstep at_len a st
+  | XWriteAllFrom i count src =>
+      match nth_error (f_ws st) i with
+      | None => (obs_bad, st)
+      | Some w => let '(r, m', w', ps) := fw_write_all_from count src (f_mem st) w in
+                  (fobs r w', mkf m' (set_nth i w' (f_ws st)) (f_pkts st ++ ps))
+      end
+  | XFlush i =>
+      match nth_error (f_ws st) i with
+      | None => (obs_bad, st)
+      | Some w => (fobs (RErr EBadIndex) w, st)
+      end
+  end.
+Fixpoint xfrun (at_len : bool) (ops : list xfop) (st : fstate) : list obs * fstate :=
+  match ops with
+  | [] => ([], st)
+  | op :: r => let '(o, st') := xfstep at_len op st in
+               let '(os, st'') := xfrun at_len r st' in (o :: os, st'')
+  end.
+
 (* case checkers with async operations *)
 Definition check_avd (seed : N) (regions : list (N * N)) (ds : list desc) (dirty0 : list N) (ops : list avop)
            (exp_init : hres) (exp : list hobs) (windows : list (N * N * N))
@@ -936,9 +985,9 @@ Definition check_afr (seed base cap : N) (ops : list avop) (exp : list hobs) (wi
   let st := mkv (mem_init seed) dirty_none [b] [] in
   let '(os, st') := avrun ops st in
   obs_list_heqb (mkobs (ROk 0 []) (avail b) 0 0 0 :: os) exp && windows_ok (v_mem st') windows.
-Definition check_af (at_len : bool) (seed base cap : N) (ops : list afop) (exp : list hobs) (pkts : list (N * N))
+Definition check_af (at_len : bool) (seed base cap : N) (ops : list xfop) (exp : list hobs) (pkts : list (N * N))
            (windows : list (N * N * N)) : bool :=
   let w := mkfdw false base 0 cap in
   let st := mkf (mem_init seed) [w] [] in
-  let '(os, st') := afrun at_len ops st in
+  let '(os, st') := xfrun at_len ops st in
   obs_list_heqb (fobs (ROk 0 []) w :: os) exp && pkts_heqb (f_pkts st') pkts && windows_ok (f_mem st') windows.
